@@ -89,6 +89,12 @@ def cmpVals : Val → Val → Option (Bool × Bool)
   | .bool a, .bool b => some (false, a = b)
   | _, _ => none
 
+/-- is this (encoded) import the standard `sync` package? -/
+def isSyncImport (i : Val) : Bool :=
+  match getField i s%"Path" with
+  | some (.str p) => p = s%"sync"
+  | _ => false
+
 /-- the template functions moq registers plus the builtin `not` -/
 def callFn (name : Str) (args : List Val) : Option Val :=
   if name = s%"not" then
@@ -130,8 +136,7 @@ def callFn (name : Str) (args : List Val) : Option Val :=
   else if name = s%"SyncPkgQualifier" then
     match args with
     | [.list imps] =>
-      match imps.find? (fun i => match getField i s%"Path" with
-                                   | some (.str p) => p = s%"sync" | _ => false) with
+      match imps.find? isSyncImport with
       | some i => (getField i s%"Qualifier")
       | none => some (.str s%"sync")
     | _ => none
@@ -158,17 +163,19 @@ def printVal : Val → Option Str
   | .int n => some (Str.ofNat n)
   | _ => none
 
+/-- the loop variables of `range $i, $x := …` / `range $x := …` bound for one iteration -/
+def bindEnv (decl : List Str) (i : Nat) (v : Val) (env : Env) : Env :=
+  match decl with
+  | [x] => (x, v) :: env
+  | [ix, x] => (ix, .int i) :: (x, v) :: env
+  | _ => env
+
 /-- iterate `vs` with index starting at `i`, running `body` with the loop variables bound -/
 def rangeLoop (body : Env → Val → Option Str) (env : Env) (decl : List Str) (i : Nat) :
     List Val → Option Str
   | [] => some []
   | v :: vs =>
-    let env' : Env :=
-      match decl with
-      | [x] => (x, v) :: env
-      | [ix, x] => (ix, .int i) :: (x, v) :: env
-      | _ => env
-    (body env' v).bind fun a => (rangeLoop body env decl (i + 1) vs).map fun b => a ++ b
+    (body (bindEnv decl i v env) v).bind fun a => (rangeLoop body env decl (i + 1) vs).map fun b => a ++ b
 
 mutual
 /-- Execute a node.  Variables declared by `range $i, $x := …` are scoped to the body;
